@@ -550,6 +550,14 @@ def algebra_predicates(ctx):
                     B = A.copy()
                     B[dim, 0] = e
                     pred(ctx, 'C07/pred/base.isskewa/%s/lastrow/k=%d' % (nm, kk), 'base.isskewa', dict(v=vn, mag=mn, dim=dim, defect='lastrow', k=kk), b.isskewa, B, False)
+                    # every entry of the bottom row (the corner included) and a diagonal entry of the augmented matrix
+                    for col in range(1, dim + 1):
+                        B = A.copy()
+                        B[dim, col] = e
+                        pred(ctx, 'C07/pred/base.isskewa/%s/lastrow%d/k=%d' % (nm, col, kk), 'base.isskewa', dict(v=vn, mag=mn, dim=dim, defect='lastrow', k=kk, col=col), b.isskewa, B, False)
+                    B = A.copy()
+                    B[1, 1] += e
+                    pred(ctx, 'C07/pred/base.isskewa/%s/diag/k=%d' % (nm, kk), 'base.isskewa', dict(v=vn, mag=mn, dim=dim, defect='diag', k=kk), b.isskewa, B, False)
     for n in (2, 3, 4):
         pred(ctx, 'C07/pred/base.iseye/%d/valid' % n, 'base.iseye', dict(n=n, defect='none'), b.iseye, np.eye(n), True)
         for kk in ks(tier):
